@@ -1091,6 +1091,35 @@ func child(batch int, seed int64, tier, outDir string) {
 				notation.VerifyBlob(ctx, nil, nil, nil, notation.VerifyBlobOptions{})
 				verifier.NewVerifierWithOptions(nil, verifier.VerifierOptions{})
 				verifier.NewVerifierWithOptions(ts, verifier.VerifierOptions{})
+				// one argument absent / degenerate at a time, all the others good (each guard is reached only when the ones before it pass)
+				vv := mkVerifier("both", levelNames[rng.Intn(4)], nil)
+				bv := vv.(notation.BlobVerifier)
+				f := lib.Formats[rng.Intn(2)]
+				vbo := notation.VerifyBlobOptions{BlobVerifierVerifyOptions: notation.BlobVerifierVerifyOptions{SignatureMediaType: f, TrustPolicyName: "named"}}
+				notation.VerifyBlob(ctx, bv, nil, valid[f+"|blob"], vbo)
+				notation.VerifyBlob(ctx, bv, bytes.NewReader(blob), nil, vbo)
+				notation.VerifyBlob(ctx, bv, bytes.NewReader(blob), []byte{}, vbo)
+				for _, mt := range []string{"", "bad;;", "text/plain", "application/jose+json; charset=utf-8"} {
+					o := vbo
+					o.SignatureMediaType = mt
+					notation.VerifyBlob(ctx, bv, bytes.NewReader(blob), valid[f+"|blob"], o)
+					o = vbo
+					o.ContentMediaType = mt
+					notation.VerifyBlob(ctx, bv, bytes.NewReader(blob), valid[f+"|blob"], o)
+				}
+				notation.VerifyBlob(ctx, bv, bytes.NewReader(blob), valid[f+"|blob"], notation.VerifyBlobOptions{})
+				notation.Verify(ctx, vv, nil, notation.VerifyOptions{ArtifactReference: "r.io/a@" + desc.Digest.String(), MaxSignatureAttempts: 1})
+				notation.Verify(ctx, nil, scriptedRepo{desc, nil, ""}, notation.VerifyOptions{ArtifactReference: "r.io/a@" + desc.Digest.String(), MaxSignatureAttempts: 1})
+				for _, n := range []int{0, -1, 1} {
+					notation.Verify(ctx, vv, scriptedRepo{desc, nil, ""}, notation.VerifyOptions{ArtifactReference: []string{"", "r.io/a@" + desc.Digest.String(), "r.io/a:v1", "a"}[rng.Intn(4)], MaxSignatureAttempts: n})
+				}
+				vv.Verify(ctx, desc, nil, notation.VerifierVerifyOptions{SignatureMediaType: f, ArtifactReference: "r.io/a@" + desc.Digest.String()})
+				vv.Verify(ctx, ocispec.Descriptor{}, valid[f], notation.VerifierVerifyOptions{SignatureMediaType: f, ArtifactReference: "r.io/a@" + desc.Digest.String()})
+				vv.Verify(ctx, desc, valid[f], notation.VerifierVerifyOptions{SignatureMediaType: f})
+				vv.Verify(ctx, desc, valid[f], notation.VerifierVerifyOptions{ArtifactReference: "r.io/a@" + desc.Digest.String()})
+				bv.VerifyBlob(ctx, func(alg digest.Algorithm) (ocispec.Descriptor, error) { return blobDesc, nil }, nil, vbo.BlobVerifierVerifyOptions)
+				bv.VerifyBlob(ctx, func(alg digest.Algorithm) (ocispec.Descriptor, error) { return ocispec.Descriptor{}, errors.New("no descriptor") }, valid[f+"|blob"], vbo.BlobVerifierVerifyOptions)
+				bv.VerifyBlob(ctx, func(alg digest.Algorithm) (ocispec.Descriptor, error) { return blobDesc, nil }, valid[f+"|blob"], notation.BlobVerifierVerifyOptions{})
 			})
 		}
 		if i%200 == 0 {
